@@ -318,6 +318,10 @@ def run(chk):
             nch += 1
             chk.ob("C04-D9.chain", o["function"], o["construct"], o["ok"], o["where"], o["detail"], o["expected"])
     chk.floor("C04-D9.chain", nch, 2, "chain-rule scaling sites shared with C10")
+    # integrate(), sum of quadrature weights times values, and coefficients times integrateHierarchicalFunctions() are documented to agree
+    from rules import routing
+    nrt = routing.routing_rule(chk, db, "C04-D10.integrals", only=("integral",))
+    chk.floor("C04-D10.integrals", nrt, 3, "forwarding calls of the integral family")
 
     return ("Static rule discharge: closed forms of the local bases (partial evaluation) give the support identities and the exact basis integrals; the sparse/dense builders are siblings of "
             "one tree walk; coefficient overwrites recompute the stored values on every path; block partitions are evaluated as closed forms over batch sizes; the evaluation tree is rebuilt "
